@@ -1,0 +1,97 @@
+//go:build verif
+
+// Copyright Istio Authors
+//
+// Licensed under the Apache License, Version 2.0 (the "License");
+// you may not use this file except in compliance with the License.
+// You may obtain a copy of the License at
+//
+//     http://www.apache.org/licenses/LICENSE-2.0
+//
+// Unless required by applicable law or agreed to in writing, software
+// distributed under the License is distributed on an "AS IS" BASIS,
+// WITHOUT WARRANTIES OR CONDITIONS OF ANY KIND, either express or implied.
+// See the License for the specific language governing permissions and
+// limitations under the License.
+
+package xds
+
+import (
+	discovery "github.com/envoyproxy/go-control-plane/envoy/service/discovery/v3"
+
+	"istio.io/istio/pilot/pkg/model"
+	"istio.io/istio/pkg/util/sets"
+	"istio.io/istio/pkg/verif"
+)
+
+// ---------------------------------------------------------------------------------------------
+// C05 / C03: a reconnecting ztunnel (wildcard WDS subscription) is resynchronised
+// ---------------------------------------------------------------------------------------------
+
+// The ambient index answers from its own state; the name of an address is a function of the address.
+//
+//verif:pure-method istio.io/istio/pilot/pkg/model.AmbientIndexes.AddressInformation
+//verif:pure (istio.io/istio/pilot/pkg/model.AddressInfo).ResourceName
+
+// current: x is the name of one of the first n addresses the index holds now.
+func current(addrs []model.AddressInfo, n int, x string) bool {
+	return verif.Exists(func(i int) bool { return 0 <= i && i < n && i < len(addrs) && addrs[i].ResourceName() == x })
+}
+
+// from the statement: "... reconnects ... presenting its old versions, nonces and retained resource names,
+// it is brought to the current state ... That includes removal, for delta clients, of retained resources
+// that were deleted while it was away". For the wildcard workload subscription of a ztunnel, on a request:
+// a name is removed exactly when the client retained it and the index no longer has it (or the index itself
+// reports it removed); in particular no name the index has now is removed for being retained. That each
+// address the index has now is sent unless the client retained exactly its version is the contract of
+// appendAddress, call by call (the statement over the whole loop - an existential over the growing response -
+// did not discharge and is not claimed).
+//
+//verif:contract (WorkloadGenerator).GenerateDeltas
+//verif:prop C05
+//verif:prop C03
+//verif:nosafety
+func ctWorkloadGenerateDeltas(e WorkloadGenerator, proxy *model.Proxy, req *model.PushRequest, w *model.WatchedResource) {
+	verif.Requires("a-wildcard-subscription-answering-a-request", req != nil && w != nil && w.Wildcard && req.IsRequest())
+	verif.Requires("server-present", e.Server != nil && e.Server.Env != nil && e.Server.Env.AmbientIndexes != nil)
+	verif.Requires("workload-or-address-type", w.TypeUrl == "type.googleapis.com/istio.workload.Address")
+	addrs, gone := e.Server.Env.AmbientIndexes.AddressInformation(nil)
+	_, removed, _, usedDelta, err := e.GenerateDeltas(proxy, req, w)
+	verif.Ensures("answers-as-a-delta", usedDelta && err == nil)
+	verif.Ensures("retained-names-that-are-gone-are-removed", verif.Forall(func(x string) bool {
+		return inStrings(removed, len(removed), x) ==
+			((hasName(req.Delta.Subscribed, x) && !current(addrs, len(addrs), x)) || hasName(gone, x))
+	}))
+}
+
+//verif:invariant (WorkloadGenerator).GenerateDeltas 1
+func invWorkloadGenerateDeltas(addrs []model.AddressInfo, have sets.String, resources model.Resources, req *model.PushRequest, rangeindex int) bool {
+	n := rangeindex + 1
+	return rangeindex < len(addrs) && have != nil && verif.Fresh(have) && verif.Fresh(resources) &&
+		verif.Forall(func(x string) bool { return hasName(have, x) == current(addrs, n, x) })
+}
+
+// from the statement: "it is brought to the current state": an address the index has now is noted as one
+// the client holds, and is put into the response (as its last resource, nothing else in the response
+// changes) unless the client reported exactly its version as retained.
+//
+//verif:contract appendAddress
+//verif:prop C05
+//verif:nosafety
+func ctAppendAddress(addr model.AddressInfo, requestedType string, aliases []string, have sets.Set[string], retained map[string]string, resources model.Resources) {
+	verif.Requires("have-present", have != nil)
+	verif.Requires("an-address-subscription", requestedType == "type.googleapis.com/istio.workload.Address")
+	n := addr.ResourceName()
+	skip := addr.Version != "" && addr.Version == retained[n]
+	out := appendAddress(addr, requestedType, aliases, have, retained, resources)
+	verif.Ensures("noted-as-held", verif.Forall(func(x string) bool {
+		return hasName(have, x) == (verif.Old(func() bool { return hasName(have, x) }) || x == n)
+	}))
+	verif.Ensures("earlier-resources-stay-where-they-are", verif.Forall(func(k int) bool {
+		return !(0 <= k && k < len(resources)) || out[k] == verif.Old(func() *discovery.Resource { return resources[k] })
+	}))
+	verif.Ensures("retained-version-is-not-sent-again", !skip || len(out) == len(resources))
+	verif.Ensures("otherwise-sent-as-the-last-resource", skip || (len(out) == len(resources)+1 && out[len(resources)] != nil &&
+		out[len(resources)].Name == n && out[len(resources)].Version == addr.Version))
+	verif.Ensures("response-fresh-or-in-place", verif.Fresh(out) || verif.Same(out[:0], resources[:0]))
+}
